@@ -36,11 +36,19 @@ func suiteC14(s *Suite, rng *Rng, tier string) {
 	keys := []*KeyPair{makeKey(1024, 0, 5, rng, true), makeKey(2048, 0, 5, rng, false), makeKey(1024, 0, 5, rng, true)}
 	keys[2] = keys[0] // two names for "same key" configurations are not needed; keep three slots
 	keys[2] = makeKey(1024, 0, 6, rng, false)
+	kidOf := map[*gabikeys.PublicKey]string{}
 	for i, k := range keys {
-		k.Pk.Issuer = fmt.Sprintf("issuer%d", i)
 		k.Pk.Counter = uint(i)
+		kidOf[k.Pk] = fmt.Sprintf("key%d", i)
 	}
 	for round := 0; round < rounds; round++ {
+		// issuer names: all different, or (a rotated key) two keys of one issuer that differ in their counter only
+		for i, k := range keys {
+			k.Pk.Issuer = fmt.Sprintf("issuer%d", i)
+		}
+		if round%2 == 1 {
+			keys[2].Pk.Issuer = keys[0].Pk.Issuer
+		}
 		n := 1 + rng.Intn(4)
 		if tier != "thorough" && n > 3 {
 			n = 3
@@ -51,9 +59,9 @@ func suiteC14(s *Suite, rng *Rng, tier string) {
 		ids := map[string]int{}
 		for i, k := range keys {
 			if rng.Intn(3) != 0 || i == 0 {
-				part[k.Pk.Issuer] = k.Pk
+				part[kidOf[k.Pk]] = k.Pk
 			}
-			ids[k.Pk.Issuer] = i
+			ids[kidOf[k.Pk]] = i
 		}
 		context := rng.Bits(1 + rng.Intn(200))
 		if round%3 == 0 {
@@ -66,7 +74,7 @@ func suiteC14(s *Suite, rng *Rng, tier string) {
 		desc := ""
 		for i := 0; i < n; i++ {
 			kp := keys[rng.Intn(len(keys))]
-			participating := part[kp.Pk.Issuer] != nil
+			participating := part[kidOf[kp.Pk]] != nil
 			var kp0 *gbig.Int
 			total := new(gbig.Int).Set(userSecret)
 			if participating {
@@ -149,7 +157,7 @@ func suiteC14(s *Suite, rng *Rng, tier string) {
 			s.Violate("C14:randomizer-too-long", "keyshare randomizer longer than the smallest key allows", L{desc})
 		}
 		for i, b := range builders {
-			if part[pks[i].Issuer] != nil {
+			if part[kidOf[pks[i]]] != nil {
 				b.SetProofPCommitment(kssComm[i])
 			}
 		}
@@ -203,7 +211,7 @@ func suiteC14(s *Suite, rng *Rng, tier string) {
 		var kss []string
 		anyPart := false
 		for i := range builders {
-			if part[pks[i].Issuer] != nil {
+			if part[kidOf[pks[i]]] != nil {
 				proofPs[i] = proofP
 				kss = append(kss, "kss")
 				anyPart = true
@@ -275,7 +283,7 @@ func suiteC14(s *Suite, rng *Rng, tier string) {
 					r.UserChallengeInput[i].KeyID = &unk
 					call("keyid-unknown", commReq.HashedUserCommitments, r, true)
 				} else {
-					name := keys[0].Pk.Issuer
+					name := kidOf[keys[0].Pk]
 					r.UserChallengeInput[i].KeyID = &name
 					call("keyid-added", commReq.HashedUserCommitments, r, true)
 				}
